@@ -603,9 +603,18 @@ func codecInjectCompact(w *World, depthLeft int) (atree.Value, SV) {
 	names := []string{"a", "b", "c", "name", "balance"}
 	n := r.Intn(4)
 	perm := []int{0, 1, 2, 3, 4}
-	for i := range perm {
-		j := i + r.Intn(len(perm)-i)
-		perm[i], perm[j] = perm[j], perm[i]
+	if r.Chance(50) {
+		// same field set as its siblings: these children share one compact-map description
+		n = 3
+		ti = codecCompositeTI{1}
+		m, err = atree.NewMap(w.St, w.Addr, w.Opts.Digester(), ti)
+		must(err)
+		sm = &svMap{m: m, vals: map[string]SV{}, ti: 50, vid: m.ValueID()}
+	} else {
+		for i := range perm {
+			j := i + r.Intn(len(perm)-i)
+			perm[i], perm[j] = perm[j], perm[i]
+		}
 	}
 	for i := 0; i < n; i++ {
 		k := testutils.NewStringValue(names[perm[i]])
@@ -677,6 +686,14 @@ func codecPut(w *World, container bool, mk func(depthLeft int) (atree.Value, SV)
 		if had {
 			w.handleRemoved(old, prev)
 		}
+	}
+}
+
+// codecCompareAll compares the content of every root with the shadow values (no type-info check,
+// so it also works for composite-typed maps).
+func codecCompareAll(w *World) {
+	for i, r := range w.Roots {
+		w.Compare(r, rootValue(r), fmt.Sprintf("root%d", i))
 	}
 }
 
@@ -806,6 +823,9 @@ func cmdCodec(a Args) {
 				if step%every == every-1 {
 					ck.checkAll(w)
 				}
+				if compact && step%3 == 2 {
+					codecCompareAll(w) // C08: slabs decoded from the ledger behave like their in-memory originals
+				}
 				if step%23 == 22 {
 					ck.checkSerialization(w)
 				}
@@ -819,6 +839,7 @@ func cmdCodec(a Args) {
 						if !compact {
 							w.VerifyAll(false)
 						}
+						codecCompareAll(w)
 					}
 				}
 			}
